@@ -514,7 +514,8 @@ class Facts:
                 return [subst(x, depth) for x in e]
             if not isinstance(e, dict):
                 return e
-            if e.get("k") == "Ref" and e.get("id") in defs and depth < 6:
+            if e.get("k") == "Ref" and e.get("id") in defs and depth < 6 and not (SHOW_ALIAS and e.get("id") in SHOW_ALIAS):
+                # (a local that already has a canonical rendering — an alias of a member path — keeps it)
                 i0 = defs[e["id"]]
                 while is_node(i0) and i0["k"] == "Cast":
                     i0 = i0["e"]
